@@ -76,6 +76,30 @@ impl Space_ {
         for c in crate::props::census::cases(args, &mut ev) {
             v.push((format!("opcensus:{}", c.coords), c.wasm));
         }
+        // custom sections never take part in validation: arbitrary payloads in the sections walrus
+        // *interprets* (name, producers) must not turn a valid module into a rejected one
+        let base = wgen::families::build_funcs(&[1, 2], 1, true);
+        let set: [u8; 12] = [0x00, 0x01, 0x02, 0x05, 0x0a, 0x7f, 0x80, 0x81, 0xc0, 0xfe, 0xff, 0x41];
+        let mut payloads: Vec<Vec<u8>> = vec![vec![]];
+        for a in set {
+            payloads.push(vec![a]);
+            for b in set {
+                payloads.push(vec![a, b]);
+                for c3 in [0x00u8, 0x80, 0xff] {
+                    payloads.push(vec![a, b, c3]);
+                }
+            }
+        }
+        payloads.push(vec![0xff; 5]);
+        payloads.push(vec![0x80; 6]);
+        payloads.push(vec![0xff, 0xff, 0xff, 0xff, 0x0f, 1, b'x']);
+        for secname in ["producers", "name", "nameX", "sourceMappingURL", "linking", "target_features"] {
+            for pl in &payloads {
+                let mut w = base.clone();
+                wgen::families::append_custom(&mut w, secname, pl);
+                v.push((format!("custom-payload:{}:{}", secname, wmodel::hex(pl)), w));
+            }
+        }
         let alpha = wgen::body::alphabet();
         let (seqs, _) = crate::props::bodies::enumerate_all(3, args.threads);
         for s in seqs {
